@@ -38,7 +38,7 @@ type C15Case struct {
 	// TdSiblingMs > 0: before each of those contexts a sibling context for the same resource is obtained under its own
 	// parent, which is cancelled after this many virtual ms (another reader of the resource going away)
 	TdSiblingMs int `json:"td_sibling_ms,omitempty"`
-	StartMs   int            `json:"start_ms,omitempty"`
+	StartMs     int `json:"start_ms,omitempty"`
 }
 
 type c15 struct{}
